@@ -302,6 +302,27 @@ pub fn check(c: &Case, rec: &mut Rec) -> Result<(), String> {
             rec.eval();
             let after_t = tb.emu_t(&e);
             e.verif_cpu().regs.set_sp(sp_was);
+            // ... and for a screen file loaded at this moment (its bytes go to the model as well; the
+            // loader parks the CPU in a loop of its own at 0x8000, so registers and that loop are
+            // put back as they were)
+            if c.placement % 3 != 0 && machine == Machine::K48 {
+                let regs_was = mach::get_regs(&mut e);
+                let scr: Vec<u8> = (0..6912u32).map(|i| (i as u8) ^ steps as u8).collect();
+                let saved: Vec<u8> = e.verif_ram_page(1)[0..8].to_vec();
+                let t1 = tb.emu_t(&e);
+                e.load_screen(rustzx_core::host::Screen::Scr(crate::host::MemAsset::new(scr.clone()))).map_err(|x| format!("load_screen: {:?}", x))?;
+                let t2 = tb.emu_t(&e);
+                e.verif_ram_page_mut(1)[0..8].copy_from_slice(&saved);
+                mach::set_regs(&mut e, &regs_was);
+                for (i, b) in scr.iter().enumerate() {
+                    m.bus.mem.write(0x4000 + i as u16, *b);
+                }
+                rec.eval();
+                if t2 != t1 {
+                    return Err(format!("load_screen with the machine stopped at frame T {}: the frame clock moved by {} T-states — loading a screen file takes no emulated time", t1 % frame_len, t2 as i64 - t1 as i64));
+                }
+                rec.class("screen-file-loaded-mid-frame");
+            }
             if r.is_ok() && after_t != before_t {
                 return Err(format!(
                     "save_snapshot with the machine stopped at frame T {} and SP = 0x5bf0 (contended RAM): the frame clock moved by {} T-states — taking a snapshot takes no emulated time",
